@@ -1,6 +1,6 @@
 (* C01 — explicit tree-automata inclusion is exact under every algorithm selection. Statements only. *)
 From Coq Require Import List NArith Bool.
-From V Require Import Sem Prod Incl TrimDefs TrimProofs Lang InclDefs InclProofs AntichainUp DownIncl BinopDefs BinopProofs ReduceDefs ReduceProofs DownInclSim SharedTable DownInclCacheDefs DownInclCacheProofs DownInclOptDefs DownInclOptProofs.
+From V Require Import Sem Prod Incl TrimDefs TrimProofs Lang InclDefs InclProofs AntichainUp DownIncl BinopDefs BinopProofs ReduceDefs ReduceProofs DownInclSim SharedTable DownInclCacheDefs DownInclCacheProofs DownInclOptDefs DownInclOptProofs NegCache.
 
 (* the verdict function every selection must compute (prepare by trimming, then decide) is exact *)
 Theorem C01_exact : forall v A B, incl_model v A B = true <-> (forall t, accepts A t -> accepts B t).
@@ -79,6 +79,13 @@ Proof. exact downo_refines. Qed.
 Theorem C01_down_opt_careless_refuted : downo_incl true trapA trapB 30 = Some true /\ ~ lincl trapA trapB /\ downo_incl false trapA trapB 30 = Some false.
 Proof. exact downo_careless_refuted. Qed.
 
+(* the cache of refuted goals: a refutation of (p, P) refutes (q, S) when p lies below q and S inside P; with the preorder the other way
+   round it does not *)
+Theorem C01_neg_cache_sound : forall A B p q P S, ~ Incl A B p P -> below A p q -> incl S P -> ~ Incl A B q S.
+Proof. exact neg_cache_sound. Qed.
+Theorem C01_neg_cache_wrong_side_refuted : below ncA 2%N 1%N /\ ~ Incl ncA ncB 1%N (5%N :: nil) /\ Incl ncA ncB 2%N (5%N :: nil).
+Proof. exact neg_cache_wrong_side_refuted. Qed.
+
 Print Assumptions C01_exact.
 Print Assumptions C01_down_sim_partial_correct.
 Print Assumptions C01_down_partial_correct.
@@ -101,3 +108,5 @@ Print Assumptions C01_down_cache_shared_refuted.
 Print Assumptions C01_down_opt_partial_correct.
 Print Assumptions C01_down_opt_refines.
 Print Assumptions C01_down_opt_careless_refuted.
+Print Assumptions C01_neg_cache_sound.
+Print Assumptions C01_neg_cache_wrong_side_refuted.
